@@ -1260,4 +1260,9 @@ def _to_extended_offset_and_delta(offsetSeconds: int, deltaSeconds: int) -> \
     offsetCode = offsetSeconds // 900  # truncate to -infinty
     offsetMinute = (offsetSeconds % 900) // 60  # always positive
     baseDeltaCode = _to_extended_delta_code(deltaSeconds)
-    return (offsetCode, f"({offsetMinute} << 4) + {baseDeltaCode}")
+    deltaCode = f"({offsetMinute} << 4) + {baseDeltaCode}"
+    if offsetMinute >= 8:
+        # The packed value is above INT8_MAX; converting it implicitly to the
+        # int8_t 'deltaCode' field is a narrowing error in C++11.
+        deltaCode = f"(int8_t) ({deltaCode})"
+    return (offsetCode, deltaCode)
